@@ -5,7 +5,6 @@ import (
 	"encoding/base64"
 	"encoding/json"
 	"fmt"
-	"io"
 	"os"
 	"path/filepath"
 	"regexp"
@@ -448,6 +447,9 @@ func (s *Scenario) buildWorld(W string, src []byte, image []byte) (*worldPaths, 
 	r := NewRNG(s.Seed ^ 0xabcdef)
 	srcName := pick(r, []string{"prog.nas", "ipl.nas", "a.nas", "haribote.asm", "prog.nas", "ipl.nas", `day1\ipl.nas`, "a:b.nas", "50%.nas", "*.nas"})
 	dstName := pick(r, []string{"o.bin", "out.obj", "ipl.bin", "naskfunc.obj", "x", "o.bin", "out.obj", `bin\ipl.bin`, "a:b.img", "50%.bin", "o'q\".bin", "*.bin"})
+	if s.Fault != nil && s.Fault.Kind == "trace" { // the trace is matched against the path as strace prints it: plain names
+		srcName, dstName = "prog.nas", "o.bin"
+	}
 	srcAbs := filepath.Join(W, "in", srcName)
 	// --- source ---
 	switch s.SrcKind {
@@ -1313,15 +1315,25 @@ func (c *c19Ctx) execute(s *Scenario, keepDir bool) (out *ScenarioOutcome, viol 
 		}
 		var sinkDone chan struct{}
 		var sunk []byte
+		var sinkF *os.File
 		if wp.dstIsFifo {
-			sinkDone = make(chan struct{})
-			go func() { // blocks in open until gosk (or, afterwards, the harness) opens the pipe for writing
-				defer close(sinkDone)
-				if f, err := os.OpenFile(wp.DstAbs, os.O_RDONLY, 0); err == nil {
-					sunk, _ = io.ReadAll(f)
-					f.Close()
-				}
-			}()
+			// the harness holds both ends of the pipe for the whole run: whatever the command's pattern of
+			// opens and closes, a reader is always there and never sees end of file early
+			if f, err := os.OpenFile(wp.DstAbs, os.O_RDWR, 0); err == nil {
+				sinkF = f
+				sinkDone = make(chan struct{})
+				go func() {
+					defer close(sinkDone)
+					buf := make([]byte, 1<<16)
+					for {
+						n, err := f.Read(buf)
+						sunk = append(sunk, buf[:n]...)
+						if err != nil {
+							return
+						}
+					}
+				}()
+			}
 		}
 		cwd := W
 		switch s.Cwd {
@@ -1346,11 +1358,13 @@ func (c *c19Ctx) execute(s *Scenario, keepDir bool) (out *ScenarioOutcome, viol 
 			}
 		}
 		if sinkDone != nil {
-			// end of stream for the reader, also when gosk never opened the pipe
-			if wf, err := os.OpenFile(wp.DstAbs, os.O_RDWR|syscall.O_NONBLOCK, 0); err == nil {
-				wf.Close()
+			// the command has ended: take what is still in the pipe, then stop reading
+			if err := sinkF.SetReadDeadline(time.Now().Add(300 * time.Millisecond)); err != nil {
+				time.Sleep(300 * time.Millisecond)
+				sinkF.Close()
 			}
 			<-sinkDone
+			sinkF.Close()
 			out.dstCollected, out.dstIsFifo = sunk, true
 		}
 		if pr.TimedOut {
@@ -1490,7 +1504,8 @@ var traceRetRe = regexp.MustCompile(`=\s+(-?\d+)`)
 func parseTrace(log string, wp *worldPaths) []string {
 	var ev []string
 	fds := map[string]string{}
-	srcA, dstA := wp.SrcArg, wp.DstArg
+	esc := strings.NewReplacer(`\`, `\\`, `"`, `\"`) // as strace prints them
+	srcA, dstA := esc.Replace(wp.SrcArg), esc.Replace(wp.DstArg)
 	for _, l := range strings.Split(log, "\n") {
 		m := traceRe.FindStringSubmatch(l)
 		if m == nil {
